@@ -17,14 +17,15 @@ open SophiaModel
 /-! ### deviations (NOT part of the Recommendation)
 
 The functions below take a `Deviations` argument; the Recommendation is `Deviations.none`.
-The two switches reproduce, inside this transcription, the two places where the implementation was
-found to differ, so that a divergence can be *attributed* (tools/propcfg/C06.py) and so that the
-one place where my reading of the text is not certain can be demanded less strictly:
+The two switches reproduce, inside this transcription, two ways an implementation can differ (the
+first is what rdfc10.rs does, the second what it did before /repo commit 33fee4b), so that a
+divergence can be *attributed* (tools/propcfg/C06.py) and so that the one place where my reading of
+the text is not certain can be demanded less strictly:
  * `dupRefs`: step 2.1 adds a reference to Q once per *occurrence* of a blank node in Q (a quad
    `_:a <p> _:a` is then listed twice under `_:a`) — the other reading of "for each blank node that
    is a component of Q"; the driver accepts either reading;
  * `lengthOnlySkip`: steps 5.4.4.3 / 5.4.5.5 skip as soon as the path is *longer* than the chosen
-   path (`rdfc10.rs::smaller_path`), instead of "at least as long AND greater".
+   path (the former `rdfc10.rs::smaller_path`), instead of "at least as long AND greater".
 -/
 
 structure Deviations where
